@@ -452,6 +452,21 @@ func c10Special(c c10CLICase, ctx *vCtx, onLog bool) *vFailure {
 		if c.Shape == "big-file-bad-tail" {
 			text += "  broken-entry-without-value\n"
 		}
+		if c.Pos == "no-final-newline" {
+			// the file ends without a line end: its last line is a line like any other
+			if c.Shape == "big-file-bad-tail" {
+				text = strings.TrimSuffix(text, "\n")
+			} else {
+				if onLog {
+					last = "tail~entry"
+					text += "  tail~entry: 7"
+				} else {
+					last = "tail~recipe" // its only entry is the last line of the file
+					text += "tail~recipe:\n  x: 7"
+				}
+			}
+			ctx.Label("no-final-newline")
+		}
 		if onLog {
 			lp = vWriteFile("c10-big-log.yaml", text)
 		} else {
@@ -484,7 +499,11 @@ func c10Special(c c10CLICase, ctx *vCtx, onLog bool) *vFailure {
 		}
 		if cmd.args[0] == "stats" {
 			st := vReadStats(r.Stdout)
-			want := fmt.Sprint(c.Size / 33)
+			nrec := c.Size / 33
+			if c.Pos == "no-final-newline" && !onLog {
+				nrec++ // the recipe whose only entry is the unterminated last line
+			}
+			want := fmt.Sprint(nrec)
 			if (onLog && st.LogRecords != want) || (!onLog && st.DbRecords != want) {
 				return vFailSig("C10/cli/big-file/truncated", "stats counts %s/%s records, the %s has %s", st.LogRecords, st.DbRecords, which, want)
 			}
@@ -752,6 +771,10 @@ func c10CLISpace() []c10CLICase {
 				}
 				out = append(out, c10CLICase{Cmd: ci, OnLog: onLog, Shape: "big-file", Size: sz})
 				out = append(out, c10CLICase{Cmd: ci, OnLog: onLog, Shape: "big-file-bad-tail", Size: sz})
+				if sz < 30<<20 {
+					out = append(out, c10CLICase{Cmd: ci, OnLog: onLog, Shape: "big-file", Size: sz, Pos: "no-final-newline"})
+					out = append(out, c10CLICase{Cmd: ci, OnLog: onLog, Shape: "big-file-bad-tail", Size: sz, Pos: "no-final-newline"})
+				}
 			}
 			for si, sh := range c10Shapes[1:] {
 				for zi, sz := range c10Sizes {
